@@ -67,6 +67,7 @@ type impl struct {
 	kmu           sync.Mutex
 	kept          map[uint32]*grpc.ClientConn
 	heldListeners []io.Closer
+	own           map[uint32]*grpc.Server
 }
 
 func (im *impl) do(op, arg string) (string, error) {
@@ -157,6 +158,37 @@ func (im *impl) do(op, arg string) (string, error) {
 		}
 		go ServeEcho(conn, id)
 		return "ok", nil
+	case "acceptown":
+		// Accept(id) and serve on the listener with a server of our own that can be stopped again
+		id64, _ := strconv.ParseUint(arg, 10, 32)
+		id := uint32(id64)
+		if im.grpcb == nil {
+			return "", errors.New("acceptown: gRPC only")
+		}
+		ln, err := im.grpcb.Accept(id)
+		if err != nil {
+			return "", err
+		}
+		srv := NewPingPongServer(nil, id, im.sh)
+		im.kmu.Lock()
+		if im.own == nil {
+			im.own = map[uint32]*grpc.Server{}
+		}
+		im.own[id] = srv
+		im.kmu.Unlock()
+		go srv.Serve(ln)
+		return "", nil
+	case "stopown":
+		id64, _ := strconv.ParseUint(arg, 10, 32)
+		im.kmu.Lock()
+		srv := im.own[uint32(id64)]
+		delete(im.own, uint32(id64))
+		im.kmu.Unlock()
+		if srv == nil {
+			return "", errors.New("stopown: no such server")
+		}
+		srv.Stop()
+		return "", nil
 	case "acceptonly":
 		// take a listener for id and keep it open until the process ends
 		id64, _ := strconv.ParseUint(arg, 10, 32)
@@ -237,7 +269,7 @@ func (im *impl) do(op, arg string) (string, error) {
 		id := uint32(id64)
 		size := 64
 		if sizes != "" {
-			size, _ = strconv.Atoi(sizes)
+			size, _ = strconv.Atoi(strings.SplitN(sizes, ":", 2)[0])
 		}
 		if im.mux != nil {
 			conn, err := im.mux.Dial(id)
@@ -245,7 +277,21 @@ func (im *impl) do(op, arg string) (string, error) {
 				return "", err
 			}
 			defer conn.Close()
-			return EchoOnce(conn, id, size)
+			ans, err := EchoOnce(conn, id, size)
+			if err != nil || sizes == "" || !strings.Contains(sizes, ":") {
+				return ans, err
+			}
+			// "<size>:<wait ns>:<late size>": use the connection again later
+			parts := strings.Split(sizes, ":")
+			if len(parts) == 3 {
+				wait, _ := strconv.ParseInt(parts[1], 10, 64)
+				late, _ := strconv.Atoi(parts[2])
+				time.Sleep(time.Duration(wait))
+				if _, err := EchoOnce(conn, id, late); err != nil {
+					return ans, fmt.Errorf("late use of the dialled connection: %w", err)
+				}
+			}
+			return ans, nil
 		}
 		conn, err := im.grpcb.Dial(id)
 		if err != nil {
